@@ -19,13 +19,16 @@ RULE = ("correspondence: ImperviousSurface.precipitation_evaporation, Surface.si
         "terms against the configuration data: catchment inflow = flow and concentration x flow, released = flow; rain on "
         "impervious / pervious surfaces = depth x area, evaporation <= potential x coefficient x area and <= rain + stored; "
         "demand = population x per-capita with population x load (constant demand for plain Demand nodes); outlets remove what "
-        "reaches them. non-trivial = distinct case with >= 3 operations / model with >= 4 nodes")
+        "reaches them; deposition from monthly surface forcing (dry and wet) under Model.run over date lists that are not contiguous "
+        "days (month and year ends, the same month in consecutive years, gaps): declared = value for the month of the timestep x area. non-trivial = distinct case with >= 3 operations / model with >= 4 nodes")
 
 if __name__ == "__main__":
     def corr(rep, thorough):
         n = 1500 if thorough else 200
         K.correspondence(rep, "boundary", n, 8, tag="c17")
         K.correspondence(rep, "catch", n, 8, tag="c17", maxdigits=30)
+        import mon_c17m
+        mon_c17m.run(rep, thorough)
         return {}
     sys.exit(net_check.run(PID, RULE,
                            ["the independent oracle reads the model configuration (forcing series, areas, populations, loads), not the node objects",
